@@ -1,4 +1,4 @@
-import Pw.C01.Spec
+import Pw.T2.Main
 import Pw.C12.Model
 open Closure MG
 
@@ -53,12 +53,6 @@ def CutR (V : Nat → Prop) (E : Nat → Nat → Prop) (X Y Z : List Nat) : Prop
 def VCut (H : UG) (X Y Z : List Nat) : Prop :=
   CutR (· ∈ H.nodes) (UAdj H.edges) X Y Z
 
-/-- anterior relation: `a` reaches `c` along `a -> b` and `a - b` steps -/
-inductive Ant (G : MG) : Nat → Nat → Prop
-  | refl (a : Nat) : Ant G a a
-  | dir {a b c : Nat} : (a, b) ∈ G.dir → Ant G b c → Ant G a c
-  | un {a b c : Nat} : ((a, b) ∈ G.un ∨ (b, a) ∈ G.un) → Ant G b c → Ant G a c
-
 /-- `A` lists exactly the nodes anterior to `S` -/
 def IsAntSet (G : MG) (S A : List Nat) : Prop :=
   ∀ a, a ∈ A ↔ (a ∈ G.nodes ∧ ∃ s ∈ S, Ant G a s)
@@ -69,13 +63,8 @@ def AntMoralCut (G : MG) (X Y Z : List Nat) : Prop :=
   ∀ A, IsAntSet G (X ++ Y ++ Z) A →
     CutR (· ∈ A) (fun u v => u ≠ v ∧ ColliderConnected (restrict G A) u v) X Y Z
 
-/-- **T2** (Lauritzen et al. 1990; Richardson–Spirtes 2002), the classical theorem the second
-    sentence of C12 rests on, stated for one graph: for all disjoint X, Y, Z ⊆ V,
-    m-separation = vertex cut in the moral graph of the anterior subgraph. -/
-def T2 (G : MG) : Prop :=
-  ∀ X Y Z : List Nat, (∀ x ∈ X, x ∈ G.nodes) → (∀ y ∈ Y, y ∈ G.nodes) → (∀ z ∈ Z, z ∈ G.nodes) →
-    (∀ x ∈ X, x ∉ Z) → (∀ y ∈ Y, y ∉ Z) →
-    (MSep G X Y Z ↔ AntMoralCut G X Y Z)
+/-- second sentence of C12 for one query (the anterior relation `MG.Ant` is the one of Pw/T2) -/
+def SepIffCut (G : MG) (X Y Z : List Nat) : Prop := MSep G X Y Z ↔ AntMoralCut G X Y Z
 
 /-! ## executable brute-force decider of `ColliderConnected` (enumerates all simple paths) -/
 
